@@ -12,6 +12,7 @@ It holds for all histories iff nothing else writes the representation:
   C08.d  __deepcopy__ copies _hash only next to a structurally identical copy of args.
   C08.e  the same argument nodes are never embedded twice on one path without a copy.
   C08.f  leaf classes (is_primitive) are never constructed with a child node.
+  C08.g  nodes looked up in a local dict are copied before they are embedded (typed lint).
 Does not decide: index arithmetic inside set(index=...), hash collisions.
 """
 
@@ -694,7 +695,69 @@ def rule_f(ctx: Ctx) -> None:
     ctx.min_instances("constructor_keyword_sites", sites, 40)
 
 
-RULES = [rule_a, rule_b, rule_c, rule_d, rule_e, rule_f]
+def rule_g(ctx: Ctx) -> None:
+    ctx.rule("C08.g", "nodes taken out of a local lookup table are copied before they are embedded: a local bound only from `<dict>.get(..)` / `<dict>[..]` of a "
+                      "dict-typed local and passed un-copied to set/append or to an expression constructor is the *same* node on every lookup of that key, so it ends "
+                      "up stored under several parents")
+    from ..typed import types
+
+    T = types(ctx.repo)
+    names = _expr_class_names(ctx)
+
+    def maybe_node(ty: str | None) -> bool:
+        if not ty:
+            return True
+        parts = [p.strip() for p in ty.replace("builtins.", "").split(" | ")]
+        keep = [p for p in parts if p not in ("None", "bool", "Literal[False]", "Literal[True]")]
+        return bool(keep) and all(p == "Any" or p.split(".")[-1].split("[")[0] in names for p in keep)
+
+    n = 0
+    for f in ctx.repo.all_funcs():
+        m = f.module
+        if m.name.startswith(("sqlglot.executor", "sqlglot.planner")) or _in_private_scope(m):
+            continue
+        defs: dict[str, list[ast.AST]] = {}
+        for st in walk_no_nested(f.node):
+            if isinstance(st, ast.Assign) and len(st.targets) == 1 and isinstance(st.targets[0], ast.Name):
+                defs.setdefault(st.targets[0].id, []).append(st.value)
+            elif isinstance(st, ast.NamedExpr) and isinstance(st.target, ast.Name):
+                defs.setdefault(st.target.id, []).append(st.value)
+        def lookup_source(d: ast.AST) -> str | None:
+            src = d.func.value if isinstance(d, ast.Call) and isinstance(d.func, ast.Attribute) and d.func.attr == "get" else d.value if isinstance(d, ast.Subscript) else None
+            if isinstance(src, ast.Name) and (T.of(m, src) or "").replace("builtins.", "").startswith(("dict[", "Dict[", "defaultdict[", "collections.defaultdict[")):
+                return src.id
+            return None
+
+        if not any(lookup_source(d) for ds in defs.values() for d in ds):
+            continue
+        for c in walk_no_nested(f.node):
+            if not isinstance(c, ast.Call):
+                continue
+            is_set = isinstance(c.func, ast.Attribute) and c.func.attr in ("set", "append") and len(c.args) >= 2
+            cn = (call_name(c) or "").split(".")[-1]
+            is_ctor = cn in names and cn[:1].isupper()
+            vals = [c.args[1]] if is_set else (list(c.args) + [k.value for k in c.keywords]) if is_ctor else []
+            for v in vals:
+                if not (isinstance(v, ast.Name) and v.id in defs):
+                    continue
+                # the binding that textually precedes the use most closely
+                before = [d for d in defs[v.id] if d.lineno <= c.lineno]
+                if not before:
+                    continue
+                last = max(before, key=lambda d: (d.lineno, d.col_offset))
+                src_tbl = lookup_source(last)
+                if src_tbl and maybe_node(T.of(m, v)):
+                    looked_up = {v.id: src_tbl}
+                    n += 1
+                    ctx.fail(m, c, f.key, f"{norm(c, 70)} with {v.id} = {looked_up[v.id]}[...]",
+                             f"`{v.id}` is looked up in the local table `{looked_up[v.id]}` and embedded without .copy(): every lookup of the same key embeds the same node "
+                             f"again, so one node is stored under several parents and records only the last one")
+    ctx.ok("package|nodes looked up in local tables are copied before embedding", {"uncopied_embeddings": n})
+    ctx.count("functions_scanned", sum(1 for _ in ctx.repo.all_funcs()))
+    ctx.min_instances("functions_scanned", sum(1 for _ in ctx.repo.all_funcs()), 2000)
+
+
+RULES = [rule_a, rule_b, rule_c, rule_d, rule_e, rule_f, rule_g]
 EXPLANATION = (
     "Who-may-write analysis over the whole package: every store to the tree representation (args items, parent/arg_key/"
     "index/_hash, raw mutation of alias-tracked child lists) is enumerated and must lie in the primitives, be a provably "
